@@ -209,6 +209,41 @@ def main():
       rep.violation(f"group-{desc(c)}-{kind}-{shape}-{g}", f"{desc(c)} on a {kind} tensor {shape}, group {g}: " + "; ".join(what),
                     {"config": c, "x_bits": xb, "y_bits": yb, "scale": s0})
   rep.note(groups_checked=len(items), groups_ok=n_ok, equivariance_elements=n_eq)
+  # ---- the shape helpers (pure Python): exhaustively over small shapes, single axis and lists of axes, vs Quant/Shape.v
+  import itertools as _it
+  import qkeras.quantizers as _QZ
+  stexts, sitems = [], []
+  dims = [1, 2, 4, 6]
+  for rank in (1, 2, 3):
+    for shape in _it.product(dims, repeat=rank):
+      for a in range(rank):
+        for f in (1, 2, 3):
+          try:
+            us, ua = _QZ._get_unrolled_shape(list(shape), f, a)
+            rb = _QZ._get_rolled_back_shape(list(us), ua)
+          except Exception as e:  # pylint: disable=broad-except
+            rep.violation(f"shape-helper-raises-{shape}-{f}-{a}", f"_get_unrolled_shape({list(shape)}, {f}, {a}) raised {type(e).__name__}: {e}", {})
+            continue
+          stexts.append(f"(render_unroll {vlib.zlist(shape)} [({a}%nat, {f})]) ++ [-2] ++ roll_many (fst (unroll_many {vlib.zlist(shape)} [({a}%nat, {f})] 0)) [{a}%nat] 0")
+          sitems.append((shape, f, a, list(us) + [-1, ua] + [-2] + list(rb)))
+      if rank >= 2:
+        for a1, a2 in _it.combinations(range(rank), 2):
+          for f1, f2 in ((2, 2), (1, 3), (2, 1)):
+            us, ua = _QZ._get_unrolled_shape(list(shape), [f1, f2], [a1, a2])
+            rb = _QZ._get_rolled_back_shape(list(us), list(ua))
+            afs = f"[({a1}%nat, {f1}); ({a2}%nat, {f2})]"
+            stexts.append(f"(render_unroll {vlib.zlist(shape)} {afs}) ++ [-2] ++ (let '(s_, ax_) := unroll_many {vlib.zlist(shape)} {afs} 0 in roll_many s_ ax_ 0)")
+            sitems.append((shape, [f1, f2], [a1, a2], list(us) + [-1] + list(ua) + [-2] + list(rb)))
+  souts = vlib.coq_eval(PROP + "_shape", "From Coq Require Import ZArith List.\nFrom QV Require Import Quant.Shape.\nImport ListNotations.\nOpen Scope Z_scope.\n" +
+                        "".join(f"Eval vm_compute in {t}.\n" for t in stexts))
+  n_sh = 0
+  for (shape, f, a, want), got in zip(sitems, souts):
+    if got != want:
+      rep.violation(f"shape-helper-{shape}-{f}-{a}", f"_get_unrolled_shape / _get_rolled_back_shape on shape {list(shape)}, factor {f}, axis {a}: "
+                    f"[unrolled shape, -1, unrolled axes, -2, rolled back shape] = {want} but the Coq model gives {got}", {"shape": list(shape)})
+    else:
+      n_sh += 1
+  rep.note(shape_helper_cases=len(sitems), shape_helper_agree=n_sh)
   rep.sample({"config": desc(items[0][0]), "tensor": items[0][1], "shape": list(items[0][2]), "x_bits": items[0][4][:4], "y_bits": items[0][5][:4], "scale": items[0][6]})
   rep.assumptions += ["tf reductions (max / mean) and float32 log are not modelled: the checker only uses the scale the quantizer exposes after the call",
                       "'auto' no-clipping is judged with a 2^-18 relative band on |x|/scale (float32 division)",
